@@ -1,4 +1,5 @@
 """G03 (spec growth) - trial / feedback life cycle of pg.sample with the in-memory backend, one sequential worker."""
+import time
 from concurrent.futures import ThreadPoolExecutor
 
 from pgverif import tlc, triallife
@@ -44,10 +45,11 @@ EXPECTED_REFUTATIONS = {
 # counter-examples that are executed on the real code against the INTENDED rules (the code must not have the wrong rule)
 REPLAY_COUNTEREXAMPLES = ['G03_neg_links.cfg', 'G03_neg_best_tie.cfg', 'G03_neg_best_skip.cfg', 'G03_neg_refeed.cfg']
 
-QUICK_MODELS = [['G03_core.cfg', 'G03_neg_links.cfg', 'G03_neg_final.cfg', 'G03_neg_maxstep.cfg'],
-                ['G03_space.cfg', 'G03_steps.cfg', 'G03_acc.cfg', 'G03_meta.cfg', 'G03_ctrl.cfg', 'G03_ctrl2.cfg',
-                 'G03_neg_best_tie.cfg', 'G03_neg_best_skip.cfg', 'G03_neg_refeed.cfg']]
-THOROUGH_MODELS = [['G03_core_big.cfg'], ['G03_meta_big.cfg', 'G03_all3.cfg']]
+QUICK_MODELS = [['G03_core.cfg', 'G03_meas2.cfg', 'G03_space.cfg', 'G03_steps.cfg', 'G03_neg_links.cfg', 'G03_neg_final.cfg',
+                 'G03_neg_maxstep.cfg'],
+                ['G03_meta.cfg', 'G03_acc.cfg', 'G03_ctrl.cfg', 'G03_ctrl2.cfg', 'G03_neg_best_tie.cfg', 'G03_neg_best_skip.cfg',
+                 'G03_neg_refeed.cfg']]
+THOROUGH_MODELS = [['G03_core_big.cfg', 'G03_steps_big.cfg'], ['G03_meta_big.cfg', 'G03_all3.cfg']]
 
 
 def _model_runs(cfgs, workers):
@@ -76,14 +78,18 @@ def run(chk):
     futs = [ex.submit(_model_runs, g, w) for g in groups]
     # ---- S->C: one implementation test per transition of two small models
     tours = {}
+    t0 = time.time()
     for cfg in ('G03_dump.cfg', 'G03_dump_ctrl.cfg'):
       tours[cfg] = triallife.replay_transitions(chk, cfg, hits, chk.seed)
     chk.notes['transition_tours'] = tours
+    chk.notes['wall_tours_s'] = round(time.time() - t0, 1)
+    t0 = time.time()
     # ---- S->C: simulated behaviours
     plan = ([('G03_sim.cfg', 150, 40, 1), ('G03_sim_ctrl.cfg', 60, 40, 1), ('G03_sim_acc.cfg', 60, 40, 1)] if not thorough else
             [('G03_sim.cfg', 3000, 60, 4), ('G03_sim_ctrl.cfg', 1200, 60, 2), ('G03_sim_acc.cfg', 1200, 60, 2)])
     for cfg, num, depth, batches in plan:
       triallife.replay_simulated(chk, cfg, num, depth, chk.seed, hits, batches=batches)
+    chk.notes['wall_simulated_s'] = round(time.time() - t0, 1)
     results = {}
     for f in futs:
       results.update(f.result())
